@@ -172,8 +172,11 @@ def build_all(quiet=False, race=False):
         # scratch trees a killed harness worker may have left behind
         for d in os.listdir(BUILD):
             # (not the ones a check running at the same time is using: only trees older than two hours)
-            if d.startswith("verifc16") and time.time() - os.path.getmtime(os.path.join(BUILD, d)) > 7200:
-                shutil.rmtree(os.path.join(BUILD, d), ignore_errors=True)
+            try:
+                if d.startswith("verifc16") and time.time() - os.path.getmtime(os.path.join(BUILD, d)) > 7200:
+                    shutil.rmtree(os.path.join(BUILD, d), ignore_errors=True)
+            except OSError:
+                pass          # (a check running at the same time has just removed its own tree)
         # Go harness, always from /repo's current working tree
         hdir = os.path.join(VERIF, "harness")
         # (built beside the target and moved over it: a check running at the same time keeps the binary it started with)
